@@ -239,7 +239,7 @@ func vMarshal(kind string) ([]byte, error) {
 	if vFail("marshal") {
 		return nil, vNewErr("marshal failed")
 	}
-	n := nondetLen("datalen."+kind, 1, 3)
+	n := nondetLen("datalen."+kind, 1, vDataMax)
 	data := make([]byte, n)
 	for i := range data {
 		data[i] = nondetU8("data" + string(rune('0'+i)))
@@ -251,3 +251,6 @@ func stubJSONMarshal(v interface{}) ([]byte, error) { vJSONCalls++; return vMars
 func stubYAMLMarshal(v interface{}) ([]byte, error) { vYAMLCalls++; return vMarshal("yaml") }
 
 var vJSONCalls, vYAMLCalls int
+
+// longest marshal output explored (bytes); harnesses may lower it for their quick tier
+var vDataMax = 3
